@@ -487,13 +487,26 @@ func (w *world) tamper(rng *mrand.Rand) {
 		return
 	}
 	sortStrings(names)
-	n := names[rng.Intn(len(names))]
+	w.tamperCookie(names[rng.Intn(len(names))], rng.Intn(9), rng)
+}
+
+// tamperCookie damages (kind 0-6), deletes (7) or replaces by an older authentic value (8) the named cookie of the current browser
+func (w *world) tamperCookie(n string, kind int, rng *mrand.Rand) {
+	j := w.jars[w.b]
+	if _, ok := j[n]; !ok {
+		return
+	}
+	names := []string{}
+	for x := range j {
+		names = append(names, x)
+	}
+	sortStrings(names)
 	short := shortName(n)
 	if short == "" {
 		return
 	}
 	w.tampered[w.b] = true
-	switch k := rng.Intn(9); {
+	switch k := kind; {
 	case k < 2: // garbage
 		j[n] = "garbage" + j[n][min(7, len(j[n])):]
 		w.rec(M{"op": "jar", "edit": "bad", "name": short})
@@ -978,8 +991,22 @@ func (w *world) scripted(prop string, sc int, rng *mrand.Rand) {
 			w.visit("/start", reqSpec{note: "initiate only"})
 		}
 		w.snapshot()
-		for i := 0; i < 1+rng.Intn(3); i++ {
-			w.tamper(rng)
+		if sc%2 == 0 { // systematically: every subset of the session's cookies (main, ID token, refresh token, their chunks) x every kind of damage
+			subsets := [][]string{{"m"}, {"a"}, {"r"}, {"a", "r"}, {"m", "a"}, {"m", "r"}, {"m", "a", "r"}, {"a0"}, {"a1"}, {"r0"}, {"a", "a0", "a1"}}
+			sub := subsets[(sc/2)%len(subsets)]
+			kind := (sc / 2 / len(subsets)) % 8
+			for n := range w.jars[w.b].clone() {
+				sn := shortName(n)
+				for _, want := range sub {
+					if sn == want {
+						w.tamperCookie(n, kind, rng)
+					}
+				}
+			}
+		} else {
+			for i := 0; i < 1+rng.Intn(3); i++ {
+				w.tamper(rng)
+			}
 		}
 		if sc%4 == 0 {
 			w.wait([]time.Duration{23*time.Hour + 59*time.Minute, 24*time.Hour + time.Minute, 40 * 24 * time.Hour}[rng.Intn(3)])
